@@ -112,7 +112,9 @@ Lemma good_auto_touch a now : good (auto_touch a now).
 Proof. unfold auto_touch. good_tac. Qed.
 Lemma good_check_name_type n t : good (check_name_type n t).
 Proof. unfold check_name_type. good_tac. Qed.
-#[export] Hint Resolve good_auto_touch good_check_name_type : good.
+Lemma good_auto_touch_for c n a now : good (auto_touch_for c n a now).
+Proof. unfold auto_touch_for. destruct (touches c n); [apply good_auto_touch | apply good_ret]. Qed.
+#[export] Hint Resolve good_auto_touch good_check_name_type good_auto_touch_for : good.
 Lemma good_entity_create_new pa cg n t now : good (entity_create_new pa cg n t now).
 Proof. unfold entity_create_new. good_tac. Qed.
 Lemma good_write_payload a d l : good (write_payload a d l).
@@ -143,6 +145,8 @@ Lemma good_api_set_link ph r x now : good (api_set_link ph r x now).
 Proof. unfold api_set_link. good_tac. Qed.
 Lemma good_api_set_attr ph a v now : good (api_set_attr ph a v now).
 Proof. unfold api_set_attr. good_tac. Qed.
+Lemma good_api_force ph c t : good (api_force ph c t).
+Proof. unfold api_force. good_tac. Qed.
 Lemma good_api_probe ph c : good (api_probe ph c).
 Proof. unfold api_probe. good_tac. Qed.
 Lemma good_api_probe_link ph l : good (api_probe_link ph l).
@@ -171,6 +175,7 @@ Definition op_prog (o : op) (now : Z) : option (M N + M unit) :=
   | ORemove p l k => Some (inr (api_remove p l k))
   | OSetLink p r x => Some (inr (api_set_link p r x now))
   | OSetAttr p a v => Some (inr (api_set_attr p a v now))
+  | OForce p c t => Some (inr (api_force p c t))
   | OProbe _ _ | OProbeLink _ _ | OSetAuto _ | OReopen _ => None
   end.
 
@@ -186,7 +191,7 @@ Proof.
               first [ apply good_api_create | apply good_api_create_mtag | apply good_api_create_feature
                     | apply good_api_lookup | apply good_api_lookup_link | apply good_api_delete
                     | apply good_api_append | apply good_api_remove | apply good_api_set_link
-                    | apply good_api_set_attr | apply good_api_probe | apply good_api_probe_link ];
+                    | apply good_api_set_attr | apply good_api_force | apply good_api_probe | apply good_api_probe_link ];
             destruct G as [_ [G _]]; apply G; exact Hro
         end.
   reflexivity.
@@ -231,6 +236,7 @@ Proof.
   - apply TwinU; [apply good_api_remove | exact E].
   - apply TwinU; [apply good_api_set_link | exact E].
   - apply TwinU; [apply good_api_set_attr | exact E].
+  - apply TwinU; [apply good_api_force | exact E].
   - apply TwinT; [apply good_api_probe | exact E].
   - apply TwinT; [apply good_api_probe_link | exact E].
   - injection E as <- <-. eexists. split; reflexivity.
